@@ -39,6 +39,7 @@ import (
 	"seehuhn.de/go/sfnt/opentype/coverage"
 	"seehuhn.de/go/sfnt/opentype/gtab"
 
+	"verif/dump"
 	"verif/explore"
 	"verif/gen"
 	"verif/run"
@@ -59,8 +60,12 @@ func fontDiff(a, b *sfnt.Font, tol float64) string {
 	if tol > 0 {
 		opts = append(append([]cmp.Option{}, cmpOpts...), cmpopts.EquateApprox(1e-8, tol))
 	}
-	if !cmp.Equal(a, b, opts...) {
-		return cmp.Diff(a, b, opts...)
+	// fast path: equal canonical dumps (nil and empty slices identified) mean equal fonts; only when the
+	// dumps differ does the slower comparison with tolerances and normal-form options decide
+	if da, db := strings.ReplaceAll(dump.String(a), "nil[]", "[]"), strings.ReplaceAll(dump.String(b), "nil[]", "[]"); da != db {
+		if !cmp.Equal(a, b, opts...) {
+			return cmp.Diff(a, b, opts...)
+		}
 	}
 	oa, oka := a.Outlines.(*cff.Outlines)
 	ob, okb := b.Outlines.(*cff.Outlines)
@@ -343,12 +348,12 @@ func c01Sizes(r *run.Run) {
 	sweeps := []struct {
 		name string
 		n    int
-	}{{"copyright length", 601}, {"trademark length with a 200-character copyright", 200}, {"family name length", 120}, {"extra glyphs", 300}}
+	}{{"copyright length", 601}, {"trademark length with a 200-character copyright", 200}, {"family name length", 120}, {"extra glyphs", 300}, {"stem hint pairs on a glyph with its own width (CFF)", 100}}
 	if !r.Quick() {
 		sweeps[0].n, sweeps[3].n = 2001, 1200
 	}
 	r.Explore(explore.Config{Name: "C01.sizes", Deadline: r.PartDeadline(0.3)},
-		fmt.Sprintf("size sweeps on a 6-glyph base font of each outline kind, every value in the range: copyright length 0..%d, trademark length 0..%d next to a 200-character copyright, family name length 1..%d, 0..%d extra glyphs with generated names/CIDs; same round-trip and fixed-point oracle as C01.generated", sweeps[0].n-1, sweeps[1].n-1, sweeps[2].n, sweeps[3].n-1),
+		fmt.Sprintf("size sweeps on a 6-glyph base font of each outline kind, every value in the range: copyright length 0..%d, trademark length 0..%d next to a 200-character copyright, family name length 1..%d, 0..%d extra glyphs with generated names/CIDs, 0..99 stem hint pairs (two thirds horizontal) on a glyph with its own width; same round-trip and fixed-point oracle as C01.generated", sweeps[0].n-1, sweeps[1].n-1, sweeps[2].n, sweeps[3].n-1),
 		func(c *explore.Ctx) {
 			kind := c.Choose(3, "outline kind")
 			sw := c.Choose(len(sweeps), "sweep")
@@ -399,6 +404,25 @@ func c01Sizes(r *run.Run) {
 					}
 					f.Outlines = &o
 				}
+			}
+			if sw == 4 {
+				ol, ok := f.Outlines.(*cff.Outlines)
+				if !ok {
+					c.Skip("stem hints are a CFF feature")
+				}
+				o := *ol
+				o.Glyphs = append([]*cff.Glyph{}, ol.Glyphs...)
+				g := *ol.Glyphs[2]
+				g.Width = 777 // not the most frequent width: the charstring carries a width operand
+				for i := 0; i < v; i++ {
+					if i%3 == 2 {
+						g.VStem = append(g.VStem, float64(10*i), float64(10*i+3))
+					} else {
+						g.HStem = append(g.HStem, float64(-200+7*i), float64(-200+7*i)+2.5)
+					}
+				}
+				o.Glyphs[2] = &g
+				f.Outlines = &o
 			}
 			desc := fmt.Sprintf("%s, %s = %d", gen.KindNames[kind], sweeps[sw].name, v)
 			c.Sample(func() any { return desc })
